@@ -2,8 +2,8 @@
 C20 — solve() and is_satisfiable() report what the SAT solver found.
 
 Property theorems only; helper lemmas are in `Lemmas/Solver*.lean`.  The model
-(`CnfgenModel/Solver/*.lean`) is the code of cnfgen/utils/solver.py as of /repo a57824c
-(after the fixes of D24 and D28):
+(`CnfgenModel/Solver/*.lean`) is the code of cnfgen/utils/solver.py as of /repo 1de50c9
+(after the fixes of D24, D28, D28c, D28d, D35):
 
   T-C20.1  what the `s`/`v` loop and the minisat-file reader return, for every list of lines /
            every file text; well-formed answers split and interleaved in any way
@@ -13,9 +13,9 @@ Property theorems only; helper lemmas are in `Lemmas/Solver*.lean`.  The model
   T-C20.4  is_satisfiable = first component of solve
 
 PARTIAL with respect to the property as a whole: starting the process, pipes, exit status and
-the removal of temporary files are not modelled (observed by harness/props/C20.py; finding D30
-lives there); the malformed-answer exceptions that remain (`ValueError` for a non-integer word,
-D28c) are stated as theorems about the model (`parseStdout_error_kinds`).
+the removal of temporary files are not modelled (observed by harness/props/C20.py).  Within the
+model nothing but the documented `ValueError` (unknown `sameas`) and `RuntimeError` can come out of
+`solve` (`solve_error_kinds`).
 -/
 import Lemmas.SolverAnswer
 import Lemmas.SolverSelect
@@ -66,10 +66,10 @@ theorem parseStdout_raises (pre post : List Str) (bad : Str) (e : Err)
     parseStdout (pre ++ bad :: post) = .error e := by
   simp [parseStdout, runLines_err _ pre post bad e hpre hbad]
 
-/-- … and it is always `ValueError` (a non-integer word on a line starting with `v`): the
-documented `RuntimeError` is NOT what a garbled value line produces (finding D28c).  A status line
-without second word raises nothing (D28 fixed). -/
-theorem lineErr_kind (l : Str) (e : Err) (h : lineErr l = some e) : e = .valueError := by
+/-- … and it is always the documented `RuntimeError` (a non-integer word on a line starting with
+`v`: the `ValueError` of `int()` is caught and re-raised; D28c fixed).  A status line without second
+word raises nothing (D28 fixed). -/
+theorem lineErr_kind (l : Str) (e : Err) (h : lineErr l = some e) : e = .runtimeError := by
   cases l with
   | nil => simp [lineErr] at h
   | cons c cs =>
@@ -79,49 +79,30 @@ theorem lineErr_kind (l : Str) (e : Err) (h : lineErr l = some e) : e = .valueEr
       split at h
       · rename_i e' heq
         injection h with h; subst h
-        -- the only failing step of `vInts` is `int(el)`
-        unfold vInts at heq
-        generalize (pySplit ('v' :: cs)).filter _ = toks at heq
-        induction toks with
-        | nil => simp [mapE] at heq
-        | cons t ts ih =>
-          simp only [mapE] at heq
-          cases hp : pyIntE t with
-          | error e1 =>
-            rw [hp] at heq
-            unfold pyIntE at hp
-            split at hp
-            · cases hp
-            · injection hp with hp; injection heq with heq; rw [← heq, ← hp]
-          | ok i =>
-            rw [hp] at heq
-            cases hm : mapE pyIntE ts with
-            | error e2 => rw [hm] at heq; injection heq with heq; subst heq; exact ih hm
-            | ok ys => rw [hm] at heq; cases heq
+        exact catchValueError_mapE _ _ heq
       · cases h
     · simp [lineErr, hv] at h
 
-/-- the witness of the excluded region: `v 1 x 0` raises ValueError, not RuntimeError (D28c) -/
-theorem garbled_value_line_valueError :
-    parseStdout ["s SATISFIABLE".toList, "v 1 x 0".toList] = .error .valueError := by decide
+/-- `v 1 x 0` is "no usable answer": RuntimeError (regression for D28c; was ValueError) -/
+theorem garbled_value_line_runtimeError :
+    parseStdout ["s SATISFIABLE".toList, "v 1 x 0".toList] = .error .runtimeError := by decide
 
 /-- a bare `s` line is "no verdict", i.e. the documented RuntimeError (regression for D28) -/
 theorem bare_status_line_runtimeError : parseStdout ["s".toList] = .error .runtimeError := by decide
 
-/-- T-C20.1d  Every exception of the loop + epilogue is `RuntimeError` (no verdict) or `ValueError`
-(garbled value line): nothing else escapes the parser. -/
-theorem parseStdout_error_kinds (lines : List Str) (e : Err) (h : parseStdout lines = .error e) :
-    e = .runtimeError ∨ e = .valueError := by
+/-- T-C20.1d  Whatever the solver prints, the parser raises NOTHING BUT the documented
+`RuntimeError` (no verdict, or a garbled value line). -/
+theorem parseStdout_only_runtimeError (lines : List Str) (e : Err)
+    (h : parseStdout lines = .error e) : e = .runtimeError := by
   by_cases hall : ∀ l ∈ lines, lineErr l = none
   · rw [parseStdout_spec lines hall] at h
     split at h
-    · injection h with h; exact Or.inl h.symm
+    · injection h with h; exact h.symm
     · cases h
-  · right
-    -- some line raises: walk to the first one
+  · -- some line raises: walk to the first one
     unfold parseStdout at h
     have key : ∀ (st : PState) (ls : List Str), (¬ ∀ l ∈ ls, lineErr l = none) →
-        ∀ e, runLines st ls = .error e → e = .valueError := by
+        ∀ e, runLines st ls = .error e → e = .runtimeError := by
       intro st ls
       induction ls generalizing st with
       | nil => intro hn; exact absurd (by simp) hn
@@ -148,6 +129,11 @@ theorem parseStdout_error_kinds (lines : List Str) (e : Err) (h : parseStdout li
       exact key _ _ hall _ hr
     | ok st =>
       exact absurd (lineErr_of_runLines_ok _ _ _ hr) hall
+
+/-- bytes outside ASCII are replaced, not fatal (regression for D28d): a comment with `é` (0xE9) -/
+theorem non_ascii_comment_harmless :
+    parseOutput (decodeAscii [99, 32, 99, 97, 102, 0xE9, 10, 115, 32, 83, 65, 84, 73, 83, 70, 73, 65, 66,
+      76, 69, 10, 118, 32, 49, 32, 48, 10]) = .ok (true, some [1]) := by decide
 
 /-- T-C20.1e  no status line at all (no answer, or only comments) → RuntimeError -/
 theorem no_verdict_raises (lines : List Str) (hok : ∀ l ∈ lines, lineErr l = none)
@@ -317,9 +303,25 @@ theorem minisat_no_answer (text : Str)
 example : parseMinisatFile "INDET\n".toList = .error .runtimeError := by decide
 example : parseMinisatFile [] = .error .runtimeError := by decide
 
-/-- a non-integer word after `SAT`: ValueError, not the documented RuntimeError (D28c) -/
-theorem minisat_garbled_valueError : parseMinisatFile "SAT\n1 x 0\n".toList = .error .valueError := by
-  decide
+/-- a non-integer word after `SAT`: the documented RuntimeError (regression for D28c) -/
+theorem minisat_garbled_runtimeError :
+    parseMinisatFile "SAT\n1 x 0\n".toList = .error .runtimeError := by decide
+
+/-- T-C20.1l  whatever is in the result file, nothing but `RuntimeError` is raised -/
+theorem parseMinisatFile_only_runtimeError (text : Str) (e : Err)
+    (h : parseMinisatFile text = .error e) : e = .runtimeError := by
+  unfold parseMinisatFile parseMinisatTokens at h
+  split at h
+  · injection h with h; exact h.symm
+  · split at h
+    · split at h
+      · rename_i e' heq
+        injection h with h; subst h
+        exact catchValueError_mapE _ _ heq
+      · cases h
+    · split at h
+      · cases h
+      · injection h with h; exact h.symm
 
 /-! ## T-C20.2 — the witness is the solver's, ordered by variable -/
 
@@ -576,6 +578,27 @@ theorem solve_cannot_start (inst : List String) (world : Iface → String → Op
     solve inst world cmd sameas = .error .runtimeError := by
   simp only [solve, h, hw]
   cases f <;> decide
+
+/-- T-C20.4c'  `solve` / `is_satisfiable` raise nothing but the two documented errors, whatever is
+installed and whatever the solver process does -/
+theorem solve_error_kinds (inst : List String) (world : Iface → String → Option ProcOut)
+    (cmd sameas : Option String) (e : Err) (h : solve inst world cmd sameas = .error e) :
+    e = .valueError ∨ e = .runtimeError := by
+  unfold solve at h
+  cases hs : selectInterface cmd sameas inst with
+  | error e1 =>
+    rw [hs] at h; injection h with h; subst h
+    exact select_error_kinds cmd sameas inst _ hs
+  | ok r =>
+    obtain ⟨f, c⟩ := r
+    rw [hs] at h
+    right
+    simp only at h
+    cases f <;> cases hw : world _ c <;> rw [hw] at h <;> simp only [runIface] at h
+    all_goals first
+      | exact parseStdout_only_runtimeError _ e h
+      | exact parseMinisatFile_only_runtimeError _ e h
+      | (injection h with h; exact h.symm)
 
 /-- T-C20.4d  end to end on the model, DIMACS conventions: selection succeeds with a stdout
 interface and the process prints a well-formed answer → `solve` returns it, `is_satisfiable`
